@@ -43,7 +43,7 @@ theorem IndexInv.of_same {a b : World} (h : SameFiles a b) (hb : IndexInv b) : I
 
 /-- `prepare` leaves the files as they were, or as `_rotate_files` leaves them -/
 theorem prepare_cases (P : Params) (z : Nat → Int) (w : World) (size ts : Nat) :
-    SameFiles (prepare P z w size ts) w ∨ SameFiles (prepare P z w size ts) (rotate z w ts) := by
+    SameFiles (prepare P z w size ts) w ∨ SameFiles (prepare P z w size ts) (rotate P z w ts) := by
   unfold prepare timeRotation sizeRotation
   dsimp only
   by_cases hf : w.sink.cfg.freq = Freq.disabled
@@ -156,32 +156,64 @@ namespace Rot
 /-! ### `_rotate_files` under the Index scheme -/
 
 /-- what `_rotate_files` computes when it does rotate -/
-theorem rotate_eq (z : Nat → Int) (w : World) (ts : Nat) (cont : List Stmt) (hns : stopped w.sink = false)
+theorem rotate_eq (P : Params) (z : Nat → Int) (w : World) (ts : Nat) (cont : List Stmt) (hns : stopped w.sink = false)
     (hcur : w.fs.get curName = some cont) (hb : bytes cont ≠ 0) :
-    rotate z w ts =
+    rotate P z w ts =
       let sfx := newSuffix z w.sink.cfg.scheme w.sink.openTs
       let fs1 := applyMoves w.fs (w.sink.created.filterMap (moveOf w.sink.cfg.scheme sfx))
       let cr1 := w.sink.created.map (entryAfter w.sink.cfg.scheme sfx)
-      let fs2 := if cr1.length > w.sink.cfg.maxBackup then
-                   match cr1 with
-                   | [] => fs1
-                   | b :: _ => fs1.del b.name
-                 else fs1
-      let cr2 := if cr1.length > w.sink.cfg.maxBackup then cr1.tail else cr1
+      let n := excess P.deletesAllExcess cr1.length w.sink.cfg.maxBackup
+      let fs2 := delAll fs1 (cr1.take n)
+      let cr2 := cr1.drop n
       { fs := fs2.put curName [],
         sink := { w.sink with created := cr2 ++ [curInfo], openTs := ts, fileSize := 0 } } := by
   unfold rotate
   simp only [hns, Bool.false_eq_true, ↓reduceIte, hcur, hb]
-  rfl
 
 /-- `_rotate_files` does nothing: backup limit reached without overwriting, or the current file is empty -/
-theorem rotate_noop (z : Nat → Int) (w : World) (ts : Nat)
-    (h : stopped w.sink = true ∨ ∃ cont, w.fs.get curName = some cont ∧ bytes cont = 0) : rotate z w ts = w := by
+theorem rotate_noop (P : Params) (z : Nat → Int) (w : World) (ts : Nat)
+    (h : stopped w.sink = true ∨ ∃ cont, w.fs.get curName = some cont ∧ bytes cont = 0) : rotate P z w ts = w := by
   unfold rotate
   rcases h with h | ⟨cont, h1, h2⟩
   · simp only [h, ↓reduceIte]
   · simp only [h1, h2, ↓reduceIte]
     split <;> rfl
+
+theorem delAll_get : ∀ (l : List FileInfo) (fs : FS) (x : Name),
+    (delAll fs l).get x = if x ∈ l.map FileInfo.name then none else fs.get x
+  | [], fs, x => by simp [delAll]
+  | e :: l, fs, x => by
+    have ih := delAll_get l (fs.del e.name) x
+    simp only [delAll, List.foldl_cons] at ih ⊢
+    rw [ih, FS.get_del]
+    by_cases h1 : x = e.name
+    · simp [h1]
+    · by_cases h2 : x ∈ l.map FileInfo.name
+      · simp [h2]
+      · have : x ∉ (e :: l).map FileInfo.name := by
+          simp only [List.map_cons, List.mem_cons, not_or]; exact ⟨h1, h2⟩
+        simp only [h2, ↓reduceIte, h1, this]
+
+theorem delAll_keys_nodup : ∀ (l : List FileInfo) (fs : FS), fs.keys.Nodup → (delAll fs l).keys.Nodup
+  | [], _, h => h
+  | e :: l, fs, h => by
+    simp only [delAll, List.foldl_cons]
+    exact delAll_keys_nodup l _ (FS.keys_del_nodup fs e.name h)
+
+theorem not_mem_take_of_mem_drop {α : Type} (l : List α) (n : Nat) (hn : l.Nodup) (x : α) (h1 : x ∈ l.drop n) :
+    x ∉ l.take n := by
+  intro h2
+  have := hn
+  rw [← List.take_append_drop n l, List.nodup_append] at this
+  exact this.2.2 x h2 x h1 rfl
+
+theorem mem_take_or_drop {α : Type} (l : List α) (n : Nat) (x : α) (h : x ∈ l) : x ∈ l.take n ∨ x ∈ l.drop n := by
+  rw [← List.take_append_drop n l] at h
+  exact List.mem_append.mp h
+
+/-- the files that survive the deletion step: all but the `excess` oldest -/
+def keptOf (P : Params) (w : World) : List FileInfo :=
+  w.sink.created.drop (excess P.deletesAllExcess w.sink.created.length w.sink.cfg.maxBackup)
 
 def mvIndex (e : FileInfo) : Name × Name := (e.name, (bump e).name)
 
@@ -284,18 +316,20 @@ structure RotSpec (w R : World) (ts : Nat) (kept : List FileInfo) : Prop where
 theorem bump_name_ne_cur (e : FileInfo) : (bump e).name ≠ curName := by
   simp [bump, FileInfo.name, curName]
 
-theorem rotate_index (z : Nat → Int) (w : World) (ts : Nat) (cont : List Stmt) (h : IndexInv w)
+theorem rotate_index (P : Params) (z : Nat → Int) (w : World) (ts : Nat) (cont : List Stmt) (h : IndexInv w)
     (hns : stopped w.sink = false) (hcur : w.fs.get curName = some cont) (hb : bytes cont ≠ 0) :
-    RotSpec w (rotate z w ts) ts
-      (if w.sink.created.length > w.sink.cfg.maxBackup then w.sink.created.tail else w.sink.created) := by
-  rw [rotate_eq z w ts cont hns hcur hb]
+    RotSpec w (rotate P z w ts) ts (keptOf P w) := by
+  rw [rotate_eq P z w ts cont hns hcur hb]
   simp only [h.scheme, newSuffix]
   rw [moves_index _ _ rfl, entries_index _ _ rfl]
   simp only [List.length_map]
+  unfold keptOf
+  generalize excess P.deletesAllExcess w.sink.created.length w.sink.cfg.maxBackup = n
   have hsh := h.shape
   obtain ⟨hA, hB⟩ := chain_index w.fs w.sink.created hsh h.tracked
   generalize hfs1 : applyMoves w.fs (w.sink.created.map mvIndex) = fs1 at hA hB
   have hk1 : fs1.keys.Nodup := by rw [← hfs1]; exact applyMoves_keys_nodup _ _ h.keys
+  have hnd : w.sink.created.Nodup := hsh.sorted.imp (fun {a b} hab heq => by subst heq; omega)
   -- a family file of `fs1` is a bumped tracked file
   have honly1 : ∀ sfx k, (fs1.get (.file sfx k)).isSome → ∃ e ∈ w.sink.created, (⟨sfx, k⟩ : FileInfo) = bump e := by
     intro sfx k hk
@@ -319,69 +353,57 @@ theorem rotate_index (z : Nat → Int) (w : World) (ts : Nat) (cont : List Stmt)
       obtain ⟨e, _, rfl⟩ := List.mem_map.mp hm
       exact hn _ _ rfl
     simp only [this, ↓reduceIte]
-  cases hcr : w.sink.created with
-  | nil =>
-    obtain ⟨rest, hr⟩ := hsh.last
-    rw [hcr] at hr
-    simp at hr
-  | cons b t =>
-    rw [hcr] at hA honly1 hsh
-    have hsorted := List.pairwise_cons.mp hsh.sorted
-    by_cases hdel : (b :: t).length > w.sink.cfg.maxBackup
-    · simp only [hdel, ↓reduceIte, List.map_cons, List.tail_cons]
-      refine ⟨rfl, ?_, by simp [FS.get_put], ?_, ?_, rfl, rfl, rfl, FS.keys_put_nodup _ _ _ (FS.keys_del_nodup _ _ hk1)⟩
-      · intro e he
-        have hne : (bump e).name ≠ (bump b).name := by
-          have := hsorted.1 e he
-          simp only [bump, FileInfo.name, ne_eq, Name.file.injEq, true_and]
-          omega
-        simp only [FS.get_put, bump_name_ne_cur, ↓reduceIte, FS.get_del, hne]
-        exact hA e (List.mem_cons_of_mem _ he)
-      · intro sfx k hk
-        simp only [FS.get_put, FS.get_del] at hk
-        split at hk
-        · rename_i heq
-          left
-          simp only [curName, Name.file.injEq] at heq
-          simp [curInfo, heq.1, heq.2]
-        · split at hk
-          · simp at hk
-          · rename_i hnd
-            obtain ⟨e, he, heq⟩ := honly1 sfx k hk
-            rcases List.mem_cons.mp he with rfl | he
-            · exact absurd (show Name.file sfx k = (bump e).name by rw [← heq]; rfl) hnd
-            · exact Or.inr ⟨e, he, heq⟩
-      · intro n hn
-        have h1 : n ≠ curName := hn _ _
-        have h2 : n ≠ (bump b).name := hn _ _
-        simp only [FS.get_put, h1, ↓reduceIte, FS.get_del, h2]
-        exact hframe1 n hn
-    · simp only [hdel, ↓reduceIte, List.map_cons]
-      refine ⟨rfl, ?_, by simp [FS.get_put], ?_, ?_, rfl, rfl, rfl, FS.keys_put_nodup _ _ _ hk1⟩
-      · intro e he
-        simp only [FS.get_put, bump_name_ne_cur, ↓reduceIte]
-        exact hA e he
-      · intro sfx k hk
-        simp only [FS.get_put] at hk
-        split at hk
-        · rename_i heq
-          left
-          simp only [curName, Name.file.injEq] at heq
-          simp [curInfo, heq.1, heq.2]
-        · exact Or.inr (honly1 sfx k hk)
-      · intro n hn
-        have h1 : n ≠ curName := hn _ _
-        simp only [FS.get_put, h1, ↓reduceIte]
-        exact hframe1 n hn
+  -- the deleted names are the bumped names of the `n` oldest entries
+  have hdelmem : ∀ x, x ∈ ((w.sink.created.map bump).take n).map FileInfo.name ↔
+      ∃ e ∈ w.sink.created.take n, x = (bump e).name := by
+    intro x
+    rw [← List.map_take, List.map_map]
+    constructor
+    · intro hx; obtain ⟨e, he, rfl⟩ := List.mem_map.mp hx; exact ⟨e, he, rfl⟩
+    · rintro ⟨e, he, rfl⟩; exact List.mem_map.mpr ⟨e, he, rfl⟩
+  have hkeptfree : ∀ e ∈ w.sink.created.drop n, (bump e).name ∉ ((w.sink.created.map bump).take n).map FileInfo.name := by
+    intro e he hx
+    obtain ⟨e', he', heq⟩ := (hdelmem _).mp hx
+    have hidx : e'.idx = e.idx := by
+      simp only [bump, FileInfo.name, Name.file.injEq, true_and] at heq; omega
+    have : e' = e := hsh.idx_inj (List.mem_of_mem_take he') (List.mem_of_mem_drop he) hidx
+    subst this
+    exact not_mem_take_of_mem_drop _ n hnd e' he he'
+  refine ⟨by rw [List.map_drop], ?_, by simp [FS.get_put], ?_, ?_, rfl, rfl, rfl,
+    FS.keys_put_nodup _ _ _ (delAll_keys_nodup _ _ hk1)⟩
+  · intro e he
+    simp only [FS.get_put, bump_name_ne_cur, ↓reduceIte, delAll_get, hkeptfree e he]
+    exact hA e (List.mem_of_mem_drop he)
+  · intro sfx k hk
+    simp only [FS.get_put] at hk
+    split at hk
+    · rename_i heq
+      left
+      simp only [curName, Name.file.injEq] at heq
+      simp [curInfo, heq.1, heq.2]
+    · rw [delAll_get] at hk
+      split at hk
+      · simp at hk
+      · rename_i hnd'
+        obtain ⟨e, he, heq⟩ := honly1 sfx k hk
+        rcases mem_take_or_drop _ n e he with ht | hd
+        · exact absurd ((hdelmem _).mpr ⟨e, ht, by rw [← heq]; rfl⟩) hnd'
+        · exact Or.inr ⟨e, hd, heq⟩
+  · intro x hx
+    have h1 : x ≠ curName := hx _ _
+    have h2 : x ∉ ((w.sink.created.map bump).take n).map FileInfo.name := by
+      intro hm
+      obtain ⟨e, _, heq⟩ := (hdelmem _).mp hm
+      exact hx _ _ heq
+    simp only [FS.get_put, h1, ↓reduceIte, delAll_get, h2]
+    exact hframe1 x hx
 
 end Rot
 
 namespace Rot
 
-theorem kept_sublist (cr : List FileInfo) (m : Nat) : (if cr.length > m then cr.tail else cr).Sublist cr := by
-  split
-  · exact List.tail_sublist cr
-  · exact List.Sublist.refl cr
+theorem kept_sublist (P : Params) (w : World) : (keptOf P w).Sublist w.sink.created :=
+  List.drop_sublist _ _
 
 theorem IndexInv.of_rotSpec {w R : World} {ts : Nat} {kept : List FileInfo} (h : IndexInv w)
     (hk : kept.Sublist w.sink.created) (s : RotSpec w R ts kept) : IndexInv R := by
@@ -431,8 +453,8 @@ theorem rotSpec_diskSeq {w R : World} {ts : Nat} {kept : List FileInfo} (s : Rot
 /-- does `_rotate_files` rotate in this state? -/
 def rotates (w : World) : Prop := stopped w.sink = false ∧ ∃ cont, w.fs.get curName = some cont ∧ bytes cont ≠ 0
 
-theorem rotate_of_not_rotates (z : Nat → Int) (w : World) (ts : Nat) (h : IndexInv w) (hn : ¬ rotates w) :
-    rotate z w ts = w := by
+theorem rotate_of_not_rotates (P : Params) (z : Nat → Int) (w : World) (ts : Nat) (h : IndexInv w) (hn : ¬ rotates w) :
+    rotate P z w ts = w := by
   apply rotate_noop
   by_cases hs : stopped w.sink = true
   · exact Or.inl hs
@@ -446,36 +468,40 @@ theorem rotate_of_not_rotates (z : Nat → Int) (w : World) (ts : Nat) (h : Inde
     · exact hb
     · exact absurd ⟨hs', cont, hc, hb⟩ hn
 
-theorem rotate_inv (z : Nat → Int) (w : World) (ts : Nat) (h : IndexInv w) : IndexInv (rotate z w ts) := by
+theorem rotate_inv (P : Params) (z : Nat → Int) (w : World) (ts : Nat) (h : IndexInv w) : IndexInv (rotate P z w ts) := by
   by_cases hr : rotates w
   · obtain ⟨hns, cont, hc, hb⟩ := hr
-    exact h.of_rotSpec (kept_sublist _ _) (rotate_index z w ts cont h hns hc hb)
-  · rw [rotate_of_not_rotates z w ts h hr]; exact h
+    exact h.of_rotSpec (kept_sublist P w) (rotate_index P z w ts cont h hns hc hb)
+  · rw [rotate_of_not_rotates P z w ts h hr]; exact h
 
-/-- the retained sequence after `_rotate_files`: unchanged, or minus the whole oldest file (only when overwriting) -/
-theorem rotate_diskSeq (z : Nat → Int) (w : World) (ts : Nat) (h : IndexInv w) :
-    diskSeq (rotate z w ts) = diskSeq w ∨
-    (w.sink.cfg.overwrite = true ∧ w.sink.created.length > w.sink.cfg.maxBackup ∧
-      ∃ b t, w.sink.created = b :: t ∧ diskSeq w = content w.fs b ++ diskSeq (rotate z w ts)) := by
+theorem excess_pos {all : Bool} {len maxB : Nat} (h : excess all len maxB ≠ 0) : len > maxB := by
+  unfold excess at h
+  split at h
+  · assumption
+  · exact absurd rfl h
+
+theorem overwrite_of_excess {P : Params} {w : World} (hns : stopped w.sink = false)
+    (hn : excess P.deletesAllExcess w.sink.created.length w.sink.cfg.maxBackup ≠ 0) : w.sink.cfg.overwrite = true := by
+  have hdel := excess_pos hn
+  simp only [stopped, hdel, decide_true, Bool.true_and, Bool.not_eq_eq_eq_not, Bool.not_false] at hns
+  exact hns
+
+/-- the retained sequence after `_rotate_files`: what it was minus the whole `n` oldest files; `n ≠ 0` only when
+    overwriting is on and the backup limit is exceeded -/
+theorem rotate_diskSeq (P : Params) (z : Nat → Int) (w : World) (ts : Nat) (h : IndexInv w) :
+    ∃ n, diskSeq w = (w.sink.created.take n).flatMap (content w.fs) ++ diskSeq (rotate P z w ts) ∧
+      (n = 0 ∨ (w.sink.cfg.overwrite = true ∧ w.sink.created.length > w.sink.cfg.maxBackup)) := by
   by_cases hr : rotates w
   · obtain ⟨hns, cont, hc, hb⟩ := hr
-    have s := rotate_index z w ts cont h hns hc hb
+    have s := rotate_index P z w ts cont h hns hc hb
     rw [rotSpec_diskSeq s]
-    by_cases hdel : w.sink.created.length > w.sink.cfg.maxBackup
-    · right
-      have how : w.sink.cfg.overwrite = true := by
-        simp only [stopped, hdel, decide_true, Bool.true_and, Bool.not_eq_eq_eq_not, Bool.not_false] at hns
-        exact hns
-      refine ⟨how, hdel, ?_⟩
-      cases hcr : w.sink.created with
-      | nil => rw [hcr] at hdel; simp at hdel
-      | cons b t =>
-        refine ⟨b, t, rfl, ?_⟩
-        simp only [hcr, List.length_cons] at hdel
-        simp [diskSeq, hcr, hdel]
-    · left
-      simp only [hdel, ↓reduceIte]; rfl
-  · left; rw [rotate_of_not_rotates z w ts h hr]
+    refine ⟨excess P.deletesAllExcess w.sink.created.length w.sink.cfg.maxBackup, ?_, ?_⟩
+    · unfold keptOf diskSeq
+      rw [← List.flatMap_append, List.take_append_drop]
+    · by_cases hn : excess P.deletesAllExcess w.sink.created.length w.sink.cfg.maxBackup = 0
+      · exact Or.inl hn
+      · exact Or.inr ⟨overwrite_of_excess hns hn, excess_pos hn⟩
+  · exact ⟨0, by rw [rotate_of_not_rotates P z w ts h hr]; simp, Or.inl rfl⟩
 
 theorem diskSeq_of_same {a b : World} (h : SameFiles a b) : diskSeq a = diskSeq b := by
   unfold diskSeq; rw [h.fs, h.created]
@@ -484,26 +510,23 @@ theorem prepare_inv (P : Params) (z : Nat → Int) (w : World) (size ts : Nat) (
     IndexInv (prepare P z w size ts) := by
   rcases prepare_cases P z w size ts with hs | hs
   · exact IndexInv.of_same hs h
-  · exact IndexInv.of_same hs (rotate_inv z w ts h)
+  · exact IndexInv.of_same hs (rotate_inv P z w ts h)
 
 theorem write_inv (P : Params) (z : Nat → Int) (w : World) (st : Stmt) (ts : Nat) (h : IndexInv w) :
     IndexInv (write P z w st ts) :=
   appendCur_inv _ st (prepare_inv P z w st.size ts h)
 
-/-- one `write_log`: the statement is appended at the end of the retained sequence; what disappears, if anything, is
-    the whole oldest file, and only when `overwrite_rolled_files` is on and the backup limit is reached -/
+/-- one `write_log`: the statement is appended at the end of the retained sequence; what disappears, if anything, are
+    the whole `n` oldest files, and only when `overwrite_rolled_files` is on and the backup limit is exceeded -/
 theorem write_diskSeq (P : Params) (z : Nat → Int) (w : World) (st : Stmt) (ts : Nat) (h : IndexInv w) :
-    diskSeq (write P z w st ts) = diskSeq w ++ [st] ∨
-    (w.sink.cfg.overwrite = true ∧ w.sink.created.length > w.sink.cfg.maxBackup ∧
-      ∃ b t, w.sink.created = b :: t ∧ diskSeq w ++ [st] = content w.fs b ++ diskSeq (write P z w st ts)) := by
+    ∃ n, diskSeq w ++ [st] = (w.sink.created.take n).flatMap (content w.fs) ++ diskSeq (write P z w st ts) ∧
+      (n = 0 ∨ (w.sink.cfg.overwrite = true ∧ w.sink.created.length > w.sink.cfg.maxBackup)) := by
   have h1 : diskSeq (write P z w st ts) = diskSeq (prepare P z w st.size ts) ++ [st] :=
     appendCur_diskSeq _ st (prepare_inv P z w st.size ts h)
   rcases prepare_cases P z w st.size ts with hs | hs
-  · left; rw [h1, diskSeq_of_same hs]
-  · rw [h1, diskSeq_of_same hs]
-    rcases rotate_diskSeq z w ts h with hd | ⟨h2, h3, b, t, h4, h5⟩
-    · left; rw [hd]
-    · right; exact ⟨h2, h3, b, t, h4, by rw [h5, List.append_assoc]⟩
+  · exact ⟨0, by rw [h1, diskSeq_of_same hs]; simp, Or.inl rfl⟩
+  · obtain ⟨n, h2, h3⟩ := rotate_diskSeq P z w ts h
+    exact ⟨n, by rw [h1, diskSeq_of_same hs, ← List.append_assoc, ← h2], h3⟩
 
 end Rot
 
